@@ -464,6 +464,13 @@ func c05Gen(t *rapid.T, rec *evid.Recorder) c05Case {
 		ops = append(ops, c05Op{Lexeme: lex[i], Role: "infix", Level: 2 + r.Intn(12, "level")})
 		rec.Class(fmt.Sprintf("infix-level:%d", ops[len(ops)-1].Level))
 	}
+	if r.Intn(5, "colon") == 0 {
+		// an operator on a built-in token that has no role in expressions (the
+		// colon of object literals, which these token strings never contain)
+		lex = []string{":", "#", "^"}
+		ops[0].Lexeme = ":"
+		rec.Class("infix-on-builtin-colon")
+	}
 	if r.Bool("prefix") {
 		ops = append(ops, c05Op{Lexeme: "~", Role: "prefix"})
 	}
